@@ -110,6 +110,9 @@ class Interp:
         if name == "implies":
             a, b = ops.truth(self, args[0]), ops.truth(self, args[1])
             return VBool(t=z3.Implies(a.term(), b.term()))
+        if name == "has_own":
+            o_ = self.resolve(args[0])
+            return mkbool(isinstance(o_, VRef) and args[1].c in self.hobj(o_).fields)
         if name == "maybe":
             # ghost non-determinism: the event may or may not have happened (both cases are explored)
             return self.new_list([args[0]] if self.path.choose(2, "maybe") == 0 else [])
@@ -830,11 +833,14 @@ class Interp:
             return self.contracts.eval_old(self, node, fr)
         if isinstance(f, ast.Name) and f.id == "pre" and self.contracts is not None and self.is_spec(fr):
             return self.contracts.eval_pre(self, node, fr)
-        if isinstance(f, ast.Attribute) and f.attr in ("append", "extend") and isinstance(f.value, (ast.Name, ast.Attribute)):
+        if isinstance(f, ast.Attribute) and f.attr in ("append", "extend", "clear") and isinstance(f.value, (ast.Name, ast.Attribute)):
             base = self.ev(f.value, fr)
             if isinstance(base, VBytes):
                 if base.kind != "bytearray":
                     self.raise_py("builtins.AttributeError", f"bytes has no attribute {f.attr}")
+                if f.attr == "clear":
+                    self.assign(f.value, VBytes([], "bytearray"), fr)
+                    return NONE
                 arg = self.ev(node.args[0], fr)
                 if f.attr == "append":
                     new = concat(base, VBytes([Lit([self.to_byte(arg)])]), "bytearray")
